@@ -98,7 +98,7 @@ theorem bodyStep_cw_inv {cfg : ReqCfg} {s s' : ReqState u} {rem : Bytes} {n c : 
 /-- C03 (whole message, soundness) -/
 theorem C03_accept_sound (u : UriImpl) (cfg : ReqCfg) {s : Bytes} {st : ReqState u} {n : Nat}
     (h : (requestSys u cfg).parse (Request.new u) s = .ok .complete st n) :
-    ∃ e c, findCrlf s = some e ∧ validUtf8 (s.take e) = true ∧
+    ∃ e c, findCrlf s = some e ∧ validUtf8 (s.take e) = true ∧ overLimit cfg.rl e = false ∧
       parseRequestLine u (s.take e) = .ok (st.method, st.target) ∧
       Headers.parse cfg.hl [] (stripDanglingCr (s.drop (e + 2))) = .ok (st.headers, .complete, c) ∧
       ((headerValue st.headers kContentLength = none ∧ st.body = [] ∧ n = e + 2 + c) ∨
@@ -118,7 +118,7 @@ theorem C03_accept_sound (u : UriImpl) (cfg : ReqCfg) {s : Bytes} {st : ReqState
     | completeWhole => have := rlStep_completePart h1' (by simp); simp at this
     | completePart =>
       simp only [h1] at h
-      obtain ⟨e, hf, rfl, hv, _, hp, hph1, hh1, hb1⟩ := rlStep_cp_inv h1'
+      obtain ⟨e, hf, rfl, hv, hrl, hp, hph1, hh1, hb1⟩ := rlStep_cp_inv h1'
       -- second iteration: the header block
       unfold Sys.loop at h
       cases h2 : (requestSys u cfg).step s1 (s.drop (e + 2)) with
@@ -135,7 +135,7 @@ theorem C03_accept_sound (u : UriImpl) (cfg : ReqCfg) {s : Bytes} {st : ReqState
           obtain ⟨hhp, hm, ht, hb, hcase⟩ := hdrStep_complete_inv h2' (by simp)
           rw [hh1] at hhp
           rcases hcase with ⟨_, hnone⟩ | ⟨hcp, _⟩
-          · refine ⟨e, c2, hf, hv, by rw [hm, ht]; exact hp, hhp, Or.inl ⟨hnone, by rw [hb, hb1]; rfl, by omega⟩⟩
+          · refine ⟨e, c2, hf, hv, hrl, by rw [hm, ht]; exact hp, hhp, Or.inl ⟨hnone, by rw [hb, hb1]; rfl, by omega⟩⟩
           · simp at hcp
         | completePart =>
           simp only [h2] at h
@@ -161,6 +161,6 @@ theorem C03_accept_sound (u : UriImpl) (cfg : ReqCfg) {s : Bytes} {st : ReqState
                 obtain ⟨rfl, rfl⟩ := h
                 have hb2 : s2.body = [] := by rw [hb, hb1]; rfl
                 obtain ⟨rfl, hlen, hbody, hm3, ht3, hh3⟩ := bodyStep_cw_inv h3' hb2
-                refine ⟨e, c2, hf, hv, by rw [hm3, ht3, hm, ht]; exact hp, by rw [hh3]; exact hhp, Or.inr ⟨v, c3, ?_, hnum, hbody, ?_, by omega⟩⟩
+                refine ⟨e, c2, hf, hv, hrl, by rw [hm3, ht3, hm, ht]; exact hp, by rw [hh3]; exact hhp, Or.inr ⟨v, c3, ?_, hnum, hbody, ?_, by omega⟩⟩
                 · rw [hh3]; exact hval
                 · rw [hbody, List.length_take]; omega
